@@ -2,6 +2,7 @@
 Driver for the static-state model (suite `static`).  Glue only.
   new <d>                 start a new static pattern with element duration d (rational n/d)
   read <t>                one read at time t (rational): prints the element index returned
+  rewind                  Pattern.reset reaches the static pattern (a constructor built around it, …)
 -/
 import IsobarV.Static.Model
 import IsobarV.Util.Parse
@@ -27,6 +28,7 @@ def handle (x : DSt) (line : String) : IO DSt := do
     let s' := x.s.read (parseRat t) x.d
     IO.println (toString s'.held)
     return { x with s := s' }
+  | ["rewind"] => IO.println "ok"; return { x with s := x.s.rewind }
   | [] => return x
   | _ => IO.println "bad-line"; return x
 
